@@ -90,7 +90,7 @@ def generate(T, tier):
         fmode = "bits" if nfl <= 6 else "cand"
         for n in ns:
             name = "%s_n%d" % (mod, n)
-            unw = max(12, min(cap, 64) + 2) if cap < 390 else 392
+            unw = max(12, cap + 2)
             code.append(HARNESS % {"unw": unw, "name": name, "expr": G.any_expr(mod, n, fmode), "mod": mod, "variant": m["variant"], "number": m["number"], "must_err": "false"})
             if FRAME_TYPES.get(mod) == n:
                 code.append(FRAME % {"unw": unw, "name": name, "expr": G.any_expr(mod, n, "bits"), "variant": m["variant"], "number": m["number"]})
